@@ -52,13 +52,17 @@ PROPS = {
                "Zap.C03_dvFieldNames", "Zap.C03_content_full", "Zap.C03_visit_built_full", "Zap.Props.Codec.content_roundtrip"],
               DV_FILES + STORED_FILES + ["ZapProofs/Props/C03Full.lean", "ZapProofs/CodecLemmasContent.lean"]),
     "C04": _p([{"gen": "C04"}, {"gen": "C04", "vectors": True, "seed_offset": 13}],
-              ["ZapProofs.Props.C04", "ZapProofs.Props.Codec"],
+              ["ZapProofs.Props.C04", "ZapProofs.Props.Codec", "ZapProofs.Props.C04Loaders"],
               ["Zap.C04.open_recovers_init_args", "Zap.C04.footer_crc_is_crc_of_all_preceding_bytes", "Zap.C04.persistFooter_crc",
                "Zap.C04.mem_recovered", "Zap.C04.persist_eq_writeTo", "Zap.C04.persist_is_persistBytes",
                "Zap.C04.persistSegmentBase_calls_toWriter", "Zap.C04.toWriter_shape", "Zap.C04.persistFooter_shape",
                "Zap.Props.Codec.footer_roundtrip", "Zap.Props.Codec.footer_layout", "Zap.Props.Codec.footer_size",
-               "Zap.Props.Codec.crcUpdate_append"],
-              CODEC_FILES + ["ZapProofs/Props/C04.lean"]),
+               "Zap.Props.Codec.crcUpdate_append",
+               "Zap.Props.C04Loaders.base_loader_spec", "Zap.Props.C04Loaders.file_loader_spec",
+               "Zap.Props.C04Loaders.base_loader_names", "Zap.Props.C04Loaders.file_loader_names",
+               "Zap.Props.C04Loaders.loaders_agree", "Zap.Props.C04Loaders.loaders_contain_id"],
+              CODEC_FILES + ["ZapProofs/Props/C04.lean", "ZapModel/Loaders.lean", "ZapProofs/WriterLemmasLoaders.lean",
+                             "ZapProofs/Props/C04Loaders.lean"]),
     "C05": _p([{"regress": "d3_zero_survivors.script"}, {"gen": "C05"}], ["ZapProofs.Props.C05"],
               ["Zap.remapSeg_spec", "Zap.remapAll_spec", "Zap.newDocCount_eq", "Zap.C05_consecutive", "Zap.C05_bijection",
                "Zap.C05_count", "Zap.C05_maps", "Zap.C05_zero", "Zap.C05_stored", "Zap.mergedFieldNames_spec",
@@ -112,14 +116,24 @@ PROPS = {
               THEORY_FILES + ["ZapProofs/Props/C20.lean"],
               partial="munmap / close(fd) are OS behaviour: observed through /proc, not modelled"),
     "C09": _p([{"frozen": "default"}, {"frozen": "big"}, {"frozen": "vectors", "vectors": True}, {"gen": "C09"}, {"gen": "C09", "vectors": True, "seed_offset": 13}],
-              ["ZapProofs.Props.Codec", "ZapProofs.Props.C04"],
+              ["ZapProofs.Props.Codec", "ZapProofs.Props.C04", "ZapProofs.Props.C09Bytes"],
+              ["Zap.Props.C09Bytes." + t for t in (
+                  "C09_postings_roundtrip", "C09_numLocsBytes", "C09_skipBytes", "C09_decLocs_block", "C09_empty_loc_stream",
+                  "C09_postings_roundtrip_writeAt", "C09_postings_record", "C09_layout_simulates_postings",
+                  "C09_postings_roundtrip_layout", "C09_postings_roundtrip_file", "C09_stored_roundtrip",
+                  "C09_layout_simulates_stored", "C09_stored_roundtrip_layout", "C09_fastDecodes_snappyLit",
+                  "C09_stored_roundtrip_layout_lit", "C09_stored_roundtrip_layout_full_false",
+                  "C09_stored_roundtrip_layout_partial")] +
               ["Zap.Props.Codec.footer_layout", "Zap.Props.Codec.footer_size", "Zap.Props.Codec.footer_roundtrip",
                "Zap.Props.Codec.uvarint_putUvarint", "Zap.Props.Codec.readN_putUvarints", "Zap.Props.Codec.chunk_slice",
                "Zap.Props.Codec.intcoder_roundtrip", "Zap.Props.Codec.content_roundtrip", "Zap.Props.Codec.onehit_roundtrip",
                "Zap.Props.Codec.onehit_tagged", "Zap.Props.Codec.general_not_onehit", "Zap.Props.Codec.freqHasLocs_roundtrip",
                "Zap.Props.Codec.synonym_roundtrip", "Zap.Props.Codec.vectorCode_order", "Zap.Props.Codec.crc32_check",
                "Zap.C04.footer_crc_is_crc_of_all_preceding_bytes", "Zap.C04.mem_recovered"],
-              CODEC_FILES + ["ZapProofs/CodecLemmasContent.lean"],
+              CODEC_FILES + ["ZapProofs/CodecLemmasContent.lean", "ZapModel/Writer.lean", "ZapModel/Layout.lean",
+                             "ZapProofs/Props/C09Bytes.lean"] +
+              ["ZapProofs/WriterLemmas%s.lean" % x for x in ("Uv", "Walk", "Post", "Stored", "BA", "LayoutDefs", "LayoutPost",
+                                                           "LayoutFinal", "LayoutStored", "LayoutStoredCex")],
               partial="FST (vellum) and roaring blobs are decoded by the real libraries and handed to the Lean decoder as an oracle table; snappy, varints, chunk tables, stored/doc-value/thesaurus/vector records and the footer+CRC are decoded natively in Lean"),
     "C14": _p([{"gen": "C14", "vectors": True}], ["ZapProofs.Props.C14", "ZapProofs.Props.Codec"],
               ["Zap.C14.C14_sound", "Zap.C14.C14_no_excluded", "Zap.C14.C14_only_eligible", "Zap.C14.C14_at_most_k",
